@@ -27,6 +27,44 @@ def run(fx, rep, tier):
     rule_depth(fx, rep)
     rule_mate(fx, rep, neg)
     rule_aspwin(fx, rep)
+    rule_rootret(fx, rep, neg)
+
+
+def rule_rootret(fx, rep, neg):
+    """The root node always searches its moves: every return of negamax that happens before the move loop (draw by rule, hash
+    cut-off, tablebase, static pruning, null move) is taken only at non-root nodes - otherwise an iteration would be reported
+    with an empty line - except the hand-over to quiescence at depth 0 (the root is searched with depth >= 1)."""
+    nxt = neg.calls_to("MovePicker::next")
+    if len(nxt) != 1:
+        rep.notes.append("C08-ROOTRET: negamax does not contain exactly one MovePicker::next call; clause not decided")
+        rep.rule("C08-ROOTRET", 0, 0, True, "not decided")
+        return
+    loop_bb = nxt[0][0]
+    after_loop = neg.reachable(loop_bb)
+    ok = True
+    n = 0
+    for bb, j, st in neg.stmts():
+        rv = st.get("rv")
+        if not (st["k"] == "assign" and st["lhs"]["l"] == 0 and not st["lhs"].get("p") and rv and rv["k"] == "agg" and rv.get("variant") == "Ok"):
+            continue
+        if bb in after_loop:
+            continue
+        n += 1
+        nonroot = False
+        for (e, pol, w) in guard_conditions(neg, bb, expand_named=True):
+            co = cmp_op(e)
+            if co and co[0] in ("Eq", "Ne"):
+                a, b = deep_strip(co[1]), deep_strip(co[2])
+                for x, y in ((a, b), (b, a)):
+                    if isinstance(x, tuple) and x[:2] == ("arg", 5) and y == ("const", 0):
+                        if (co[0] == "Eq" and pol is False) or (co[0] == "Ne" and pol is True):
+                            nonroot = True
+        rep.obligation(nonroot)
+        if not nonroot:
+            ok = False
+            rep.violation("C08-ROOTRET", f"C08-ROOTRET/line-{n}", f"negamax line {st.get('line')} returns a score before the move loop without requiring a non-root node (plies != 0): at the root the iteration would end with an empty principal variation",
+                          {"fn": neg.name, "file": neg.file, "line": st.get("line")})
+    rep.rule("C08-ROOTRET", n, 4, ok, "early returns of negamax only at non-root nodes")
 
 
 def rule_aspwin(fx, rep):
@@ -412,6 +450,13 @@ def rule_mate(fx, rep, neg):
         rep.obligation(good)
         if not good:
             bad("mated", f"negamax line {t.get('line')}: a mated score is returned without both `{cname} == 0` and `is_king_in_check()` holding", t.get("line"))
+        # mated at this node's own distance from the root
+        n += 1
+        ply = deep_strip(neg.expr(t["args"][0], expand_named=True, at=bb))
+        good = isinstance(ply, tuple) and ply[:2] == ("arg", 5)
+        rep.obligation(good)
+        if not good:
+            bad("mated-ply", f"negamax line {t.get('line')}: the mated score is built for `{show(ply)[:60]}`, not for this node's ply: the announced mate distance no longer matches the line's length", t.get("line"))
     # skips (continue without make_move) only when counter > 0
     nxt = neg.calls_to("MovePicker::next")
     n += 1
@@ -451,6 +496,10 @@ NG = "src/engine/search/negamax.rs"
 ID = "src/engine/search/iterative_deepening.rs"
 PE = "src/engine/eval/player_eval.rs"
 MUTANTS = [
+    {"name": "draw-by-rule test also taken at the root", "expect": "C08-ROOTRET",
+     "edits": [("src/engine/search/negamax.rs", "    if !is_root\n        && (game.is_repeated_position()", "    if (plies < 200)\n        && (game.is_repeated_position()")]},
+    {"name": "mated score built for the next ply", "expect": "C08-MATE/mated-ply",
+     "edits": [("src/engine/search/negamax.rs", "            Eval::mated_in(plies)\n        } else {\n            Eval::DRAW\n        });", "            Eval::mated_in(plies + 1)\n        } else {\n            Eval::DRAW\n        });")]},
     {"name": "aspiration returns a mate score from outside the window (seed C08-2)", "expect": "C08-ASPWIN",
      "edits": [("src/engine/search/aspiration.rs", "        if eval <= window.alpha {\n            window.widen_down();", "        if eval.is_mate_in_moves().is_some() {\n            return Ok(eval);\n        }\n\n        if eval <= window.alpha {\n            window.widen_down();")]},
     {"name": "aspiration accepts a score equal to beta", "expect": "C08-ASPWIN",
